@@ -21,43 +21,46 @@ def vp9ByteAt (buf : Bytes) (i : Nat) : Res UInt8 :=
   | some b => .ok b
   | none => .panic
 
-/-- the byte mask `1<<k - 1` computed in Go's `byte` arithmetic (k ≤ 8; k = 8 gives 0xFF) -/
-def vp9MaskLow (k : Nat) : UInt8 := (2 ^ k - 1).toUInt8
+/-! The Go reader computes with `byte` shifts/masks and a `uint64` accumulator.  The model computes the
+    same values in `Nat`: `x >> k` = `x / 2^k`, `x & (1<<k - 1)` = `x % 2^k` (for the `byte` mask with
+    k ≤ 8, where `1<<8 - 1` is 0xFF in `byte` arithmetic), `(acc << k) | y` = `acc * 2^k + y` when
+    `y < 2^k`; the `uint64` wrap-around is the final `% 2^64` (shifting left and or-ing low bits commute
+    with reduction mod 2^64, so reducing once at the end gives Go's result for every `n`). -/
 
 /-- readFlagUnsafe: value and new position -/
 def vp9ReadFlagUnsafe (buf : Bytes) (pos : Nat) : Res (Bool × Nat) := do
-  let b ← vp9ByteAt buf (pos >>> 3)
-  pure (((b >>> (7 - (pos &&& 7)).toUInt8) &&& 0x01) == 1, pos + 1)
+  let b ← vp9ByteAt buf (pos / 8)
+  pure (b.toNat / 2 ^ (7 - pos % 8) % 2 == 1, pos + 1)
 
 /-- readFlag -/
 def vp9ReadFlag (buf : Bytes) (pos : Nat) : Res (Bool × Nat) :=
   if vp9HasSpace buf pos 1 then vp9ReadFlagUnsafe buf pos else .err .other
 
 /-- the `for n >= 8` loop of readBitsUnsafe: (bits, pos, n) -/
-def vp9ReadBytesLoop (buf : Bytes) : Nat → UInt64 → Nat → Nat → Res (UInt64 × Nat × Nat)
+def vp9ReadBytesLoop (buf : Bytes) : Nat → Nat → Nat → Nat → Res (Nat × Nat × Nat)
   | 0, bits, pos, n => .ok (bits, pos, n)
   | fuel + 1, bits, pos, n =>
     if 8 ≤ n then do
-      let b ← vp9ByteAt buf (pos >>> 3)
-      vp9ReadBytesLoop buf fuel ((bits <<< 8) ||| b.toUInt64) (pos + 8) (n - 8)
+      let b ← vp9ByteAt buf (pos / 8)
+      vp9ReadBytesLoop buf fuel (bits * 256 + b.toNat) (pos + 8) (n - 8)
     else .ok (bits, pos, n)
 
-/-- readBitsUnsafe: value (a `uint64`) and new position -/
-def vp9ReadBitsUnsafe (buf : Bytes) (pos n : Nat) : Res (UInt64 × Nat) := do
-  let res := 8 - (pos &&& 7)
-  let b ← vp9ByteAt buf (pos >>> 3)
+/-- readBitsUnsafe: value (a `uint64`, as a `Nat` below 2^64) and new position -/
+def vp9ReadBitsUnsafe (buf : Bytes) (pos n : Nat) : Res (Nat × Nat) := do
+  let res := 8 - pos % 8
+  let b ← vp9ByteAt buf (pos / 8)
   if n < res then
-    pure (((b >>> (res - n).toUInt8) &&& vp9MaskLow n).toUInt64, pos + n)
+    pure (b.toNat / 2 ^ (res - n) % 2 ^ n, pos + n)
   else do
-    let bits := (b &&& vp9MaskLow res).toUInt64
+    let bits := b.toNat % 2 ^ res
     let (bits, pos, n) ← vp9ReadBytesLoop buf (n / 8 + 1) bits (pos + res) (n - res)
     if 0 < n then do
-      let b ← vp9ByteAt buf (pos >>> 3)
-      pure ((bits <<< n.toUInt64) ||| (b >>> (8 - n).toUInt8).toUInt64, pos + n)
-    else pure (bits, pos)
+      let b ← vp9ByteAt buf (pos / 8)
+      pure ((bits * 2 ^ n + b.toNat / 2 ^ (8 - n)) % 2 ^ 64, pos + n)
+    else pure (bits % 2 ^ 64, pos)
 
 /-- readBits -/
-def vp9ReadBits (buf : Bytes) (pos n : Nat) : Res (UInt64 × Nat) :=
+def vp9ReadBits (buf : Bytes) (pos n : Nat) : Res (Nat × Nat) :=
   if vp9HasSpace buf pos n then vp9ReadBitsUnsafe buf pos n else .err .other
 
 structure Vp9ColorConfig where
